@@ -82,7 +82,8 @@ PROPS = {
     },
     "C02": {
         "module": "BiscuitModel.Props.C02",
-        "streams": ["chain"],
+        "more_modules": ["BiscuitModel.Props.C02Convert"],
+        "streams": ["chain", "convert"],
         "level_text": "Lean 4 theorems: wire_round_trip (decoding the protobuf encoding of ANY container - authority block, any number of blocks, third-party signatures, versions, root key id, either proof - gives the container back, for fields that fit their length prefixes; the decoder follows prost: any field order, last occurrence wins, repeated fields accumulate; built on varint_round_trip, decFields_fuel_irrel, decAll_fVarint / decAll_fBytes / decAll_repeated of Lemmas/WireDec; on every honest token of the chain stream the model decoder is run on the presented bytes and must give what prost gives); payloads_eq_spec and the gen_*_eq_spec family (each of the seven payload layouts regenerated from crypto/mod.rs equals the layout written from the Biscuit specification), unknown_signature_version_refused, new_token_verifies / append_verifies / seal_verifies and built_tokens_verify (every token produced by ANY history of build, append, append-third-party and seal operations, with any algorithms, verifies under the issuing root key - induction over the history, assuming only that a signature made with a secret verifies under its public key), the signature-version rule (sigVersion_third_party, _datalog33, _non_ed25519, _ed25519, _never_back, _le_one). Tie: every stage of every generated history must be accepted by Biscuit::from, from_base64 and UnverifiedBiscuit::from+verify, expose the same revocation ids / external keys / root key id / block count as the model, re-serialize to identical bytes, equal the model's own protobuf encoding byte for byte, and every signature in it must verify - with ed25519-dalek / p256 used directly, not through biscuit-auth - over the payload bytes the Lean model computes.",
         "level_note": "Scheme correctness is a hypothesis. The wire decoder is modelled for the container messages (Model/WireDec); block contents (the Datalog payload) are opaque bytes at this level.",
         "rule": "chain stream (see C01); for C02 the honest stages are the cases that matter: non-trivial = honest stage with at least one appended block",
@@ -148,7 +149,8 @@ PROPS = {
     },
     "C16": {
         "module": "BiscuitModel.Props.C16",
-        "streams": ["versions", "chain"],
+        "more_modules": ["BiscuitModel.Props.C02Convert"],
+        "streams": ["versions", "chain", "convert"],
         "level_text": "Lean 4 theorems re-checked on every run against detector tables and compatibility ladder regenerated from datalog/mod.rs (Gen/Detectors.lean): bin33_table, bin31_table, un33_table, closure_table, check_kind_table, term33_detected (the code's detectors recognise exactly the features the specification puts in 3.1 / 3.3, for every operator and for terms nested to any depth), declared_version_spec (for EVERY block the builders declare exactly the lowest version covering its contents), third_party_at_least_32, spec_version_values, compatible_sound and gate_sound (whatever passes the load gate declares a version in [3,6], at least the specification's version for its contents, and at least 3.2 if third-party), builder_blocks_pass_own_gate, chained_when_needed and never_back (signature scheme). Tie: the complete finite enumeration - one block per operator (in a check and in a rule), per unary, per term kind incl. nested null/array/map in facts, rule heads, rule bodies, check bodies and expression values, per check kind, per scope position - built through the builders as authority / appended / third-party block (declared version and signature version compared), and every one of them re-declared with versions 0..8, correctly re-signed as first- and third-party block, then loaded (gate compared); plus generated blocks.",
         "level_note": "Trusted: the translator (checked by the stream: the model's tables decide the same blocks as the running code), harness signing fixture (payload layouts used only to craft inputs). The key-algorithm sequences of the signature-version rule are tied by the chain stream (C02).",
         "rule": "versions stream: exhaustive over the feature list x {authority, appended, third-party} and x declared versions 0..8 x {first, third party}; plus seeded generated blocks; non-trivial = every case except the plain-fact baseline; distinct = distinct case JSON",
@@ -408,6 +410,7 @@ POST = {"chain": "chainpost"}
 
 # which cases of a shared stream are in the scope of a property (others are run but not judged)
 FILTERS = {
+    ("C16", "convert"): lambda case: case.get("gen") == "loose" or case["block"].get("version") != 6,
     ("C16", "chain"): lambda case: case.get("op") == "chain" and case.get("mutation") == "none",
     ("C02", "chain"): lambda case: case.get("op") == "chain" and (case.get("mutation") == "none" or case.get("mutation", "").startswith("honest token")),
     ("C08", "chain"): lambda case: case.get("op") == "sealops" or (case.get("op") == "chain" and "seal" in (case["subject"].get("proof") or {}) and "ecdsa" not in case.get("mutation", "")),
@@ -1028,7 +1031,34 @@ def cmp_blockparse(case, impl, model):
     return v.replace("expr and the parser model differ", "parse_%s and the parser model differ" % ("block_source" if case.get("kind") == "block" else "source")) if v else None
 
 
-COMPARATORS = {"blockparse": cmp_blockparse, "itemparse": cmp_itemparse, "exprparse": cmp_exprparse, "termparse": cmp_termparse, "capi": cmp_capi, "macros": cmp_macros, "untrusted": cmp_untrusted, "keys": cmp_keys, "params": cmp_params, "print": cmp_print, "snapshot": cmp_snapshot, "symbols": cmp_symbols, "versions": cmp_versions, "chain": cmp_chain, "limits": cmp_limits, "expr": cmp_default, "engine": cmp_engine, "authz": cmp_authz, "atten": cmp_atten, "determ": cmp_determ}
+def cmp_convert(case, impl, model):
+    """the conversion model against proto_block_to_token_block / token_block_to_proto_block: same error class, or the
+    same message written back for the block that was read (sets and maps compared as such)"""
+    if "driver_error" in model:
+        return "driver error: %s" % model["driver_error"]
+    if "panic" in impl:
+        return "proto_block_to_token_block panicked: %s" % impl["panic"][:200]
+    def ct(t):
+        if isinstance(t, dict):
+            if "set" in t and isinstance(t["set"], list):
+                u = {json.dumps(x, sort_keys=True): x for x in (ct(x) for x in t["set"])}
+                return {"set": [u[k] for k in sorted(u)]}
+            if "map" in t and isinstance(t["map"], list):
+                u = {}
+                for k, v in t["map"]:
+                    u[json.dumps(k, sort_keys=True)] = [k, ct(v)]
+                return {"map": [u[k] for k in sorted(u)]}
+            return {k: ct(v) for k, v in t.items()}
+        if isinstance(t, list):
+            return [ct(x) for x in t]
+        return t
+    if ct(impl) != ct(model):
+        what = "error class" if ("err" in impl or "err" in model) else "block read back"
+        return "proto_block_to_token_block and the conversion model differ (%s): %s vs %s" % (what, json.dumps(impl)[:300], json.dumps(model)[:300])
+    return None
+
+
+COMPARATORS = {"convert": cmp_convert, "blockparse": cmp_blockparse, "itemparse": cmp_itemparse, "exprparse": cmp_exprparse, "termparse": cmp_termparse, "capi": cmp_capi, "macros": cmp_macros, "untrusted": cmp_untrusted, "keys": cmp_keys, "params": cmp_params, "print": cmp_print, "snapshot": cmp_snapshot, "symbols": cmp_symbols, "versions": cmp_versions, "chain": cmp_chain, "limits": cmp_limits, "expr": cmp_default, "engine": cmp_engine, "authz": cmp_authz, "atten": cmp_atten, "determ": cmp_determ}
 
 
 def nontrivial(stream, case, impl):
@@ -1064,6 +1094,8 @@ def nontrivial(stream, case, impl):
         return any(c in case["text"] for c in "[{")
     if stream == "exprparse":
         return any(c in case["text"] for c in "(.|&<>=+-*/!")
+    if stream == "convert":
+        return "err" in impl or len(case["block"]["rules"]) + len(case["block"]["checks"]) >= 1
     if stream == "blockparse":
         return case["text"].count(";") >= 2 or "//" in case["text"] or "/*" in case["text"]
     if stream == "itemparse":
